@@ -128,6 +128,65 @@ theorem prependSubClamped_ok {v : Nat} {b : Buf} {L : Ledger} (hb : BInv v b) (h
   simp only [rd_get, List.getElem?_take, List.getElem?_drop]
   grind
 
+theorem assignSub_ok {v : Nat} {b : Buf} {L : Ledger} (hb : BInv v b) (hL : LiveIn b L) (hbd : Bounded L) (off len k : Nat) (h : off + len ≤ b.e - b.s) :
+    OkM (b.assignSub off len k) L (fun b' L' => LStep b.ownId b'.ownId L L' ∧ BInv v b' ∧ b'.data = rd b.data off len) := by
+  unfold LiveIn Bounded at *
+  obtain ⟨st, s, e, cap⟩ := b
+  cases st <;> simp only [BInv] at hb <;> simp only [] at h <;>
+    (try simp only [Buf.ownId, Option.some.injEq, forall_eq', reduceCtorEq, false_implies, implies_true] at hL) <;>
+    buf_wp <;> simp only [rd_rd _ _ _ _ _ h] <;> mem_finish
+
+theorem ok_ptrSub' (p n) (P : Nat → Prop) : Ok (ptrSub p n) P ↔ n ≤ p ∧ P (p - n) := by
+  unfold ptrSub; by_cases h : n ≤ p <;> simp [h, Ok]
+
+theorem appendSub_ok {v : Nat} {b : Buf} {L : Ledger} (hb : BInv v b) (hL : LiveIn b L) (hbd : Bounded L) (off len k : Nat) (h : off + len ≤ b.e - b.s) :
+    OkM (b.appendSub off len k) L (fun b' L' => LStep b.ownId b'.ownId L L' ∧ BInv v b' ∧ b'.data = b.data ++ rd b.data off len) := by
+  unfold LiveIn Bounded at *
+  obtain ⟨st, s, e, cap⟩ := b
+  cases st with
+  | own id m =>
+    simp only [BInv] at hb
+    simp only [] at h
+    simp only [Buf.ownId, Option.some.injEq, forall_eq'] at hL
+    obtain ⟨n, rfl⟩ : ∃ n, e = s + n := ⟨e - s, by omega⟩
+    simp only [Nat.add_sub_cancel_left] at h
+    simp only [Buf.appendSub, okM_bind, okM_liftO, ok_ptrSub']
+    buf_wp
+    simp only [Nat.add_sub_cancel_left, ← Nat.add_assoc, Nat.add_sub_cancel, rd_rd _ _ _ _ _ h]
+    mem_finish
+  | att m => simp only [BInv] at hb; simp only [] at h; buf_wp; simp only [rd_rd _ _ _ _ _ h]; mem_finish
+  | dflt c => simp only [BInv] at hb; simp only [] at h; buf_wp; simp only [rd_rd _ _ _ _ _ h]; mem_finish
+
+theorem clamp_rd {b : Buf} {v : Nat} (hb : BInv v b) (off len : Nat) :
+    let size := b.e - b.s
+    let off' := if off < size then off else size
+    let len' := if len < size - off' then len else size - off'
+    off' + len' ≤ b.e - b.s ∧ rd b.data off' len' = (b.data.drop off).take len := by
+  have hlen : b.data.length = b.e - b.s := by
+    obtain ⟨st, s, e, cap⟩ := b
+    cases st <;> simp only [BInv] at hb <;> simp only [Buf.data, Store.mem, rd_length] <;> grind
+  refine ⟨by split <;> split <;> omega, ?_⟩
+  apply List.ext_getElem?
+  intro i
+  simp only [rd_get, List.getElem?_take, List.getElem?_drop]
+  grind
+
+theorem appendSubClamped_ok {v : Nat} {b : Buf} {L : Ledger} (hb : BInv v b) (hL : LiveIn b L) (hbd : Bounded L) (off len k : Nat) :
+    OkM (b.appendSubClamped off len k) L (fun b' L' => LStep b.ownId b'.ownId L L' ∧ BInv v b' ∧
+      b'.data = b.data ++ (b.data.drop off).take len) := by
+  obtain ⟨h1, h2⟩ := clamp_rd hb off len
+  unfold Buf.appendSubClamped
+  refine (appendSub_ok hb hL hbd _ _ k h1).mono (fun b' L' h => ⟨h.1, h.2.1, ?_⟩)
+  rw [h.2.2, h2]
+
+theorem assignSubClamped_ok {v : Nat} {b : Buf} {L : Ledger} (hb : BInv v b) (hL : LiveIn b L) (hbd : Bounded L) (off len k : Nat) :
+    OkM (b.assignSubClamped off len k) L (fun b' L' => LStep b.ownId b'.ownId L L' ∧ BInv v b' ∧
+      b'.data = (b.data.drop off).take len) := by
+  obtain ⟨h1, h2⟩ := clamp_rd hb off len
+  unfold Buf.assignSubClamped
+  refine (assignSub_ok hb hL hbd _ _ k h1).mono (fun b' L' h => ⟨h.1, h.2.1, ?_⟩)
+  rw [h.2.2, h2]
+
 theorem resize_ok {v : Nat} {b : Buf} {L : Ledger} (hb : BInv v b) (hL : LiveIn b L) (hbd : Bounded L) (n k : Nat) :
     OkM (b.resize n k) L (fun b' L' => LStep b.ownId b'.ownId L L' ∧ BInv v b' ∧ b'.data.length = n ∧
       ∀ i : Nat, i < n → i < b.data.length → b'.data[i]? = b.data[i]?) := by
